@@ -177,6 +177,31 @@ def run(ctx):
     ctx.floor('C13-ORDER', n, 7, 'handlers replaying undo_funcs')
 
 
+_MAY_RAISE = {}
+
+
+def fn_may_raise(ctx, fn, depth=2):
+    """the function contains throw(...) / raise outside an `except` that re-raises nothing new, or calls (resolved exactly, by dispatch or super) one
+    that does, `depth` levels down.  Assertions do not count (they state what cannot happen)."""
+    key = (fn.full, depth)
+    if key in _MAY_RAISE: return _MAY_RAISE[key]
+    _MAY_RAISE[key] = False
+    r = False
+    for st in walk_no_nested(fn.node):
+        if isinstance(st, ast.Raise) and st.exc is not None: r = True; break
+        if isinstance(st, ast.Call) and dotted(st.func) == 'throw': r = True; break
+    if not r and depth > 0:
+        for c, ts, kind in ctx.cg.callees(fn):
+            if kind in ('exact', 'dispatch', 'super') and any(fn_may_raise(ctx, t, depth - 1) for t in ts): r = True; break
+    _MAY_RAISE[key] = r
+    return r
+
+
+def call_may_raise(ctx, fn, call):
+    ts, kind = ctx.cg.resolve(fn, call)
+    return kind in ('exact', 'dispatch', 'super') and any(fn_may_raise(ctx, t) for t in ts)
+
+
 def check_function(ctx, f, creates, only_cover_locs=None, prefix='C13'):
     repo, cg = ctx.repo, ctx.cg
     g = cg.cfg(f)
@@ -211,6 +236,13 @@ def check_function(ctx, f, creates, only_cover_locs=None, prefix='C13'):
     fail_points = [n for n in g.nodes if n.ast is not None and n.kind == 'stmt' and (
         g.is_noreturn_stmt(n.ast) or any(any(dotted(a) in ('undo_funcs',) for a in c.args) or any(dotted(k.value) == 'undo_funcs' for k in c.keywords)
                                          for c in n.calls()))]
+    # a call into pony code that can refuse its argument (validate(), check...) is a failure point as well: resolved callees (exact / dispatch /
+    # super) whose body -- or a callee's, two levels down -- contains throw(...) / raise
+    raising = [n for n in g.nodes if n.ast is not None and n.kind == 'stmt' and n not in fail_points and any(call_may_raise(ctx, f, c_) for c_ in n.calls())]
+    # the database-load branch of a shared function states `assert undo_funcs is None`: no modification is in progress there, nothing to undo
+    load_only = [n for n in g.nodes if n.kind == 'stmt' and isinstance(n.ast, ast.Assert) and norm(n.ast.test) == 'undo_funcs is None']
+    raising = [n for n in raising if not (load_only and g.dominated(n, load_only))]
+    fail_points = fail_points + raising
     for c in closures:
         defn = [n for n in g.nodes if n.ast is c.node]
         regs = nodes_calling(g, lambda call: dotted(call.func) == 'undo_funcs.append' and call.args and dotted(call.args[0]) == c.name)
@@ -387,6 +419,8 @@ def none_guard_ok(ctx, f, g, assign):
 
 
 MUTANTS = [
+    dict(id='C13-late-validate', file='pony/orm/core.py', fn='Attribute.__set__', old="            if not attr.reverse and not attr.is_part_of_unique_index:\n                obj._vals_[attr] = new_val\n                return",
+         new="            new_val = attr.validate(new_val, obj, from_db=False)\n            if not attr.reverse and not attr.is_part_of_unique_index:\n                obj._vals_[attr] = new_val\n                return", expect='C13-REG.closure-registered'),
     dict(id='C13-ro1', file='pony/orm/core.py', fn='Entity._delete_', old="                for cache_index, old_key in undo_list: cache_index[old_key] = obj\n\n            try:", new="                for cache_index, old_key in undo_list: cache_index[old_key] = obj\n\n            undo_funcs.append(undo_func)\n            try:", expect='C13-REG.undo-order'),
     dict(id='C13-sn1', file='pony/orm/core.py', fn='Set.__set__', old="            old_added = None if setdata.added is None else set(setdata.added)\n            old_removed = None if setdata.removed is None else set(setdata.removed)\n", new="            old_added, old_removed = setdata.added, setdata.removed\n", expect='C13-SNAP'),
     dict(id='C13-m1', file='pony/orm/core.py', fn='Entity._delete_', old='is_recursive_call = undo_funcs is not None', new='is_recursive_call = bool(undo_funcs)', expect='C13-NONE'),
